@@ -185,7 +185,7 @@ def run(chk):
 					continue
 				chk.case("burst", {"seed": rng.randrange(10**9), "width": w, "rows": n, "reps": 6 if chk.quick() else 12, "gc": gcmode,
 					"flood": 120 if chk.quick() else 400, "keep_p": 0.3}, "burst")
-	for i in range(150 if chk.quick() else 1500):
+	for i in range(150 if chk.quick() else 400):
 		chk.case("history", {"seed": rng.randrange(10**9), "nsteps": rng.choice([20, 40]) if chk.quick() else rng.choice([20, 40, 80]), "profile": rng.choice(["alias", "alias", "mixed"])}, "history")
 	chk.counters["hook:tracker-register"] = pool.TRACKER_EVENTS["register"]
 	chk.counters["hook:tracker-unregister"] = pool.TRACKER_EVENTS["unregister"]
